@@ -119,20 +119,22 @@ let do_a line =
                        (words (String.sub s (i + 1) (String.length s - i - 1))))) in
     let th x = ptr_of_th (int_of_string x) in
     match words body with
-    | ["c"; t; p; named; sc] -> XCreate (th t, z_of_string p, bool_of named, parse_script sc, os)
-    | ["pt"; p; t] -> XPushThread (z_of_string p, th t, os)
-    | ["pm"; p; t] -> XPushThread (z_of_string p, th t, os)   (* ABT_pool_push_threads with a batch of one *)
-    | ["pu"; p; t] -> XPushUnit (z_of_string p, th t, os)
-    | ["po"; p; k] | ["pp"; p; k] -> XPop (z_of_string p, z_of_string k)
-    | ["sa"; t; p] -> XSetPool (th t, z_of_string p, os)
-    | ["mg"; t; p] -> XMigrate (th t, z_of_string p)
-    | ["rn"; t] -> XRun (th t, os)
-    | ["ru"; t; p] -> XRunUnit (th t, z_of_string p, os)
-    | ["fr"; t] -> XFree (th t)
-    | ["rv"; t; p; sc] -> XRevive (th t, z_of_string p, parse_script sc, os)
-    | ["ck"; t] -> XCheck (th t)
+    | ["c"; t; p; named; sc] -> [XCreate (th t, z_of_string p, bool_of named, parse_script sc, os)]
+    | ["pt"; p; t] -> [XPushThread (z_of_string p, th t, os)]
+    | ["pm"; p; t] -> [XPushThread (z_of_string p, th t, os)]   (* ABT_pool_push_threads with a batch of one *)
+    | ["pu"; p; t] -> [XPushUnit (z_of_string p, th t, os)]
+    | ["po"; p; k] | ["pp"; p; k] -> [XPop (z_of_string p, z_of_string k)]
+    (* ABT_pool_pop_threads(len = n): n single pops of the model (a pop of an empty pool changes nothing) *)
+    | ["pn"; p; n; k] -> List.init (int_of_string n) (fun _ -> XPop (z_of_string p, z_of_string k))
+    | ["sa"; t; p] -> [XSetPool (th t, z_of_string p, os)]
+    | ["mg"; t; p] -> [XMigrate (th t, z_of_string p)]
+    | ["rn"; t] -> [XRun (th t, os)]
+    | ["ru"; t; p] -> [XRunUnit (th t, z_of_string p, os)]
+    | ["fr"; t] -> [XFree (th t)]
+    | ["rv"; t; p; sc] -> [XRevive (th t, z_of_string p, parse_script sc, os)]
+    | ["ck"; t] -> [XCheck (th t)]
     | _ -> failwith ("bad A op: " ^ s) in
-  let ops = List.map parse (split_on ',' ops) in
+  let ops = List.concat_map parse (split_on ',' ops) in
   let ((s, rs), e) = xrun bi (xinit pools) ops in
   let pr_res = function
     | XRcode c -> "c" ^ string_of_z c
